@@ -19,6 +19,7 @@ type ByzSpec struct {
 	H     uint64 `json:"h"`
 	V     uint64 `json:"v"`
 	P     []int  `json:"p,omitempty"` // strategy-specific parameters
+	Inst  uint64 `json:"inst,omitempty"` // offset added to the instance id of everything this injection signs (0 = this instance)
 }
 
 // Adversary holds the Byzantine and outsider keys. It can sign only with those, and can copy anything it has observed.
@@ -29,6 +30,7 @@ type Adversary struct {
 	Excluded map[string]int
 	// Proposals the adversary itself has injected (stand-alone or inside a NEW_VIEW); "support" backs them with PREPAREs and COMMITs
 	Proposals []AdvProposal
+	instOff   uint64
 }
 
 type AdvProposal struct {
@@ -146,7 +148,7 @@ func (a *Adversary) injectRaw(strategy string, raw *interfaces.ConsensusRawMessa
 }
 
 func (a *Adversary) ref(t uint16, h, v uint64, hash []byte) RefSpec {
-	return RefSpec{Type: t, Inst: uint64(Instance), H: h, V: v, Hash: hash}
+	return RefSpec{Type: t, Inst: uint64(Instance) + a.instOff, H: h, V: v, Hash: hash}
 }
 
 func (a *Adversary) signedRef(as int, r RefSpec) SigSpec {
@@ -296,7 +298,7 @@ func (a *Adversary) forgedProof(as int, h, pv uint64, b *fakes.Block, mode int) 
 }
 
 func (a *Adversary) vote(as int, h, v uint64, proof *ProofSpec) VoteSpec {
-	vs := VoteSpec{Type: TVC, Inst: uint64(Instance), H: h, V: v, Proof: proof}
+	vs := VoteSpec{Type: TVC, Inst: uint64(Instance) + a.instOff, H: h, V: v, Proof: proof}
 	vs.Sender = SigSpec{ID: a.w.IDs[as], Sig: a.sign(as, h, vs.HeaderRaw())}
 	return vs
 }
@@ -319,6 +321,8 @@ func (a *Adversary) Do(s *ByzSpec) {
 	if h == 0 || h > w.Cfg.MaxHeight {
 		return
 	}
+	a.instOff = s.Inst
+	defer func() { a.instOff = 0 }()
 	switch s.Strat {
 	case "pp": // A1/A2: (equivocating / stand-alone) PREPREPARE. P0 block, P1 header-hash mode
 		if v > 0 && a.Disabled["pp:view>0"] {
@@ -506,6 +510,15 @@ func (a *Adversary) newView(s *ByzSpec) {
 			}
 		}
 	}
+	if par(s, 2) == 8 { // the block of the LOWEST proof among the votes (ignores a higher lock)
+		var lowV int64 = 1 << 62
+		for i, vt := range votes {
+			if vt.Proof != nil && int64(vt.Proof.PP.V) < lowV && voteBlocks[i] != nil {
+				lowV = int64(vt.Proof.PP.V)
+				blk = voteBlocks[i]
+			}
+		}
+	}
 	if blk == nil {
 		blk = a.block(h, par(s, 2))
 	}
@@ -527,7 +540,7 @@ func (a *Adversary) newView(s *ByzSpec) {
 		}
 	}
 	pps := a.signedRef(signer, ppr)
-	spec := &MsgSpec{Union: UNV, NVType: TNV, NVInst: uint64(Instance), NVH: h, NVV: v, Votes: votes, PPRef: &ppr, PPSend: &pps, Block: blk}
+	spec := &MsgSpec{Union: UNV, NVType: TNV, NVInst: uint64(Instance) + a.instOff, NVH: h, NVV: v, Votes: votes, PPRef: &ppr, PPSend: &pps, Block: blk}
 	spec.Sender = SigSpec{ID: w.IDs[s.As], Sig: a.sign(s.As, h, spec.NVHeaderRaw())}
 	a.Proposals = append(a.Proposals, AdvProposal{h, ppv, hash, blk})
 	a.inject(fmt.Sprintf("nv:votes%d:proof%d:pp%d", mode, par(s, 1)%4, par(s, 3)%4), spec, s.To)
